@@ -434,10 +434,20 @@ class SV:
     def __index__(self):
         if not self.is_int:
             raise PathAbort("index from non-integer symbolic value")
-        for k in range(0, 65):
+        for k in range(0, 9):
             if bool(mkbool(self.e == k)):
                 return k
-        raise PathAbort("index out of modelled range 0..64")
+        # larger values: deterministic bisection over 9..4095 (every feasible value gets its own path)
+        if not bool(mkbool(z3.And(self.e >= 9, self.e <= 4095))):
+            raise PathAbort("index out of modelled range 0..4095")
+        lo, hi = 9, 4095
+        while lo < hi:
+            mid = (lo + hi) // 2
+            if bool(mkbool(self.e <= mid)):
+                hi = mid
+            else:
+                lo = mid + 1
+        return lo
 
     def __deepcopy__(self, memo):
         return self
